@@ -31,6 +31,7 @@ type Config struct {
 	DumpDir       string
 	DumpMs        int
 	Seed          int
+	PanicsEverywhere bool
 }
 
 var gCfg = Config{Repo: "/repo", Module: "github.com/ah-naf/borno", Verif: "/verif", Z3: "z3", QueryTimeoutS: 60, ModelsPerSite: 2, MaxCallDepth: 400, Workers: runtime.NumCPU()}
